@@ -8,6 +8,10 @@
 /* struct listImpl_st / listEl_st are private to list.c: the contracts (re-declarations) come after the file */
 #include "contracts/list_array.h"
 
+/* capacity bound of the harness (the contracts themselves allow LIST_MAX_SIZE) */
+#ifndef LIST_HARNESS_MAX
+#define LIST_HARNESS_MAX 4
+#endif
 static struct KSI_List_st g_list;
 static struct listImpl_st g_impl;
 
@@ -18,13 +22,15 @@ static int mk_list(void) {
 	g_impl.arr_len = nondet_size();
 	g_impl.arr = NULL;
 	if (g_impl.arr_size != 0) {
-		if (g_impl.arr_size > LIST_MAX_SIZE) return 0;
+		if (g_impl.arr_size > LIST_HARNESS_MAX) return 0;
 		g_impl.arr = malloc(g_impl.arr_size * sizeof(struct listEl_st));
 		if (g_impl.arr == NULL) return 0;
 	}
 	g_list.pImpl = &g_impl;
 	g_list.obj_free = nondet_bool() ? list_stub_free : NULL;
 	g_lw = nondet_size(); g_lv = nondet_size();
+	g_lold_w = (g_impl.arr != NULL && g_lw < g_impl.arr_size) ? g_impl.arr[g_lw].ptr : NULL;
+	g_lold_v = (g_impl.arr != NULL && g_lv < g_impl.arr_size) ? g_impl.arr[g_lv].ptr : NULL;
 	g_lfree_calls = 0; g_lfree_last = NULL;
 	return 1;
 }
@@ -38,9 +44,9 @@ void harness(void) {
 	len0 = g_impl.arr_len;
 	res = appendElement(&g_list, obj);
 	REACH("append returns");
-	if (res == KSI_OK && g_impl.arr_size > 10 && len0 + 10 == g_impl.arr_size) REACH("append grew a non-empty array");
+	if (res == KSI_OK && len0 > 0 && len0 + 10 == g_impl.arr_size) REACH("append grew a non-empty array");
 	if (res == KSI_OK && len0 == 0 && g_impl.arr_size == 10) REACH("append allocated the first array");
-	if (res == KSI_OK && len0 + 10 < g_impl.arr_size) REACH("append without growth");
+	if (res == KSI_OK && len0 < g_impl.arr_size && g_impl.arr_size <= LIST_HARNESS_MAX) REACH("append without growth");
 	if (res == KSI_OUT_OF_MEMORY) REACH("append: allocation failed");
 }
 #endif
